@@ -158,9 +158,29 @@ def parse_document(text):
     return types, doc["primaryType"], doc["domain"], doc["message"]
 
 
+_DIM_BAD = re.compile(r"\[(\s*\+?0[0-9]+|\s*\+[0-9]+|\s+[0-9]*|[0-9]+\s+)\]")
+_WIDTH = re.compile(r"(bytes|uint|int)(\+?[0-9]+)\Z")
+
+
+def _noncanonical(ts):
+    """Type strings that a lenient parser may read as an atom / array although they are not canonical (uint08, bytes01, uint+8,
+    uint8[00], uint8[+1], uint8[ 1]): the properties do not speak about them. Canonical look-alikes (uint9, bytes0, bytes33) are
+    ordinary struct names for the tool and for the reference alike."""
+    if _DIM_BAD.search(ts):
+        return True
+    base = ts.split("[", 1)[0]
+    m = _WIDTH.match(base)
+    if m:
+        d = m.group(2)
+        return d.startswith("+") or (len(d) > 1 and d.startswith("0"))
+    return False
+
+
 def classify(text):
     try:
         types, primary, domain, message = parse_document(text)
+        if any(_noncanonical(ts) for ms in types.values() for _, ts in ms):
+            return ("either", None)
         if "EIP712Domain" not in types:
             raise Reject("no EIP712Domain type")
         if not eip712.domain_type_ok(types["EIP712Domain"]):
